@@ -155,9 +155,40 @@ func gzipEncoded(p []byte) []byte {
 	return b.Buf
 }
 
+// dirty runs other exported users of package-level pooled state (hashers, buffers, gzip writers) with
+// unrelated data, in a PRNG-chosen mix, right before the call under test: a derivation function must not
+// depend on what ran before it in the same process.
+var dirtyRng = hx.NewRand(0xD1127)
+
+func dirty() {
+	r := dirtyRng
+	start := r.Intn(5)
+	for i := 0; i < 5; i++ { // every user once, rotating order
+		switch (start + i) % 5 {
+		case 0:
+			_ = crypto.SHA256(r.Bytes(r.Intn(200)))
+		case 1:
+			_ = crypto.SHA256(r.Bytes(r.Intn(70)), r.Bytes(1+r.Intn(70)))
+		case 2:
+			var k crypto.Key
+			copy(k[:], r.Bytes(256))
+			_ = k.ID()
+			_ = crypto.MessageKeyV1(r.Bytes(r.Intn(100)))
+		case 3:
+			var k crypto.Key
+			copy(k[:], r.Bytes(256))
+			_ = crypto.MessageKey(k, r.Bytes(16*r.Intn(8)), crypto.Side(r.Intn(2)))
+		default:
+			_, _ = crypto.RandInt128(r)
+			_ = crypto.SHA256(nil)
+		}
+	}
+}
+
 // run executes one case on the real code, evaluates the oracle; emit=true also writes the Coq case.
 func run(c *hx.Ctx, t tc, kind string, emit bool) {
 	c.Obs.Evaluations++
+	dirty()
 	var key crypto.AuthKey
 	copy(key.Value[:], t.Key)
 	copy(key.ID[:], t.KeyID)
@@ -380,6 +411,7 @@ func effThreshold(t int) int {
 // session's header and the caller's payload arrive (C04 at the connection layer). emit => Coq case (mode 3).
 func runConn(c *hx.Ctx, t cc, kind string, emit bool) {
 	c.Obs.Evaluations++
+	dirty()
 	var kk crypto.Key
 	copy(kk[:], t.Key)
 	key := kk.WithID()
